@@ -1,6 +1,6 @@
 (* Extraction of the C09 model (and the boolean hypotheses of the theorems) for the correspondence check. *)
 From V.lib Require Import Base.
-From V.c09 Require Import C09Model C09Spec C09BuildModel C09PureModel C09TimeCodeModel.
+From V.c09 Require Import C09Model C09Spec C09BuildModel C09PureModel C09TimeCodeModel C09RowsModel.
 Require Import ExtrOcamlBasic.
 Separate Extraction
   tables stsc_box ctts_box stsz_box chunk sample range
@@ -13,4 +13,5 @@ Separate Extraction
   ctts_empty ctts_run ctts_table stsc_empty stsc_call stsc_call_res stsc_run stsc_table stsc_of_table
   nz sdis stsc_call_ok rows_ok raw_ok ctts_call_ok nchunks
   fstate query answer run run_all eval
-  stts_get_time_code stts_get_time_code_pinned.
+  stts_get_time_code stts_get_time_code_pinned S_time_code ids_ok
+  S_decode_time chunk_counts S_entries nsamples is_u32.
